@@ -93,6 +93,7 @@ def replay_cfg(chk, g, ik, cf, P, layout, inplace, boolin, rng, max_states, devi
             chk.nontrivial.add((cf["sk"], inplace, k, o))
         chk.extra["replayed_edges"] = chk.extra.get("replayed_edges", 0) + st.edges
         chk.extra["impl_states_visited"] = chk.extra.get("impl_states_visited", 0) + st.states
+        chk.traces += st.states      # TLC-generated behaviours (paths of the emitted graph) executed on the code
     return st, mism
 
 
